@@ -484,7 +484,7 @@ def rule_r7(ck, prog, rule='C09.R7', prefixes=('opentelemetry::trace::', 'opente
     cnt = 0
     bad = 0
     for f in sorted(prog.funcs.values(), key=lambda x: x.key):
-        if not any(f.qn.startswith(p) for p in prefixes) and not f.qn.startswith('canary::c09::'):
+        if not any(f.qn.startswith(p) for p in prefixes):
             continue
         statics = {}
         for n in f.nodes:
@@ -504,7 +504,13 @@ def rule_r7(ck, prog, rule='C09.R7', prefixes=('opentelemetry::trace::', 'opente
                     if v == vid:
                         writes.append(n)
             const = d['t'].startswith('const ')
-            if writes and not const:
+            init_lv = leaves(f, d['init']) if d.get('init') is not None and d['init'] >= 0 else set()
+            per_call = sorted(str(l[1]) for l in init_lv if l[0] in ('param', 'field'))
+            if per_call:
+                bad += 1
+                ck.violation(rule, f, 'static-local-not-mutated:%s' % d['name'], dn,
+                             'the function-local static %s is initialised from per-call data (%s): it keeps the value of the first call for the life of the process, every later call (and every other thread) sees that stale value' % (d['name'], ', '.join(per_call[:3])))
+            elif writes and not const:
                 bad += 1
                 ck.violation(rule, f, 'static-local-not-mutated:%s' % d['name'], writes[0],
                              'the function-local static %s (%s) is modified on every call: it is shared by all threads, so concurrent calls validate / parse one another\'s data' % (d['name'], d['t'][:40]))
@@ -621,6 +627,8 @@ def run(ck, prog):
     rule_r6(ck, prog)
     if not rule_r8(ck, prog):
         ck.note('C09.R8 not applicable in this configuration: no regex validators compiled')
+    with ck.canary('C09.R7'):
+        rule_r7(ck, prog, prefixes=('canary::c09::',))
     n7 = rule_r7(ck, prog)
     if not n7:
         ck.holds('C09.R7', prog.function('trace::propagation::HttpTraceContext::Extract'), 'no-static-locals', None, 'no function-local statics in the analysed API functions')
